@@ -177,7 +177,7 @@ def foreign_history(rng, setup, values):
     vs = rng.sample(values, min(len(values), 6))
     for v in vs:
         lines += ['C g:%s 0' % hx(v), 'C %s 1' % hx(v), 'C g:%s 1' % hx(v), 'C %s 0' % hx(v), 'L', 'K', 'R']
-    return lines
+    return lines + ['ST']
 
 
 EXTRA_VALUES = [-1, -2, -3, -128, -2 ** 31, -2 ** 63, 256, 257, 65535, 65536, 2 ** 31, 2 ** 32 - 1, 2 ** 32, 2 ** 63, 2 ** 64, 10 ** 30]
@@ -316,7 +316,7 @@ def analyse(lines, impl, mdl, fam, ctx=None):
                 # a lenient conversion of an unknown *name* defined a visible member: the property quantifies over
                 # integer conversions only, so this is reported as information, never as a violation or finding
                 yield ('advisory', i, 'outside the property (lenient unknown NAME defines a member): %s gives %r, the values-only SPEC %r' % (OPNAME[op], impl_pub, spec))
-            if impl_raw != mdl_raw and fam != 'foreign':
+            if impl_raw != mdl_raw:
                 if impl_pub == mdl_pub and impl_pub.startswith('SU'):
                     yield ('advisory', i, 'hidden member naming differs (private): impl %r, model %r' % (impl_raw, mdl_raw))
                 else:
@@ -330,7 +330,7 @@ def analyse(lines, impl, mdl, fam, ctx=None):
             elif op == 'ST':
                 # the names of hidden members are the library's private naming: compare positions and values only
                 norm = lambda t: ','.join((HID['prefix'] + '*:' + x.split(':')[1]) if x.startswith(HID['prefix']) else x for x in t.split(' ', 1)[-1].split(','))
-                if norm(a) != norm(b) and fam != 'foreign':
+                if norm(a) != norm(b):
                     yield ('corr', i, '%s: implementation %r, model %r' % (line, a, b))
             elif a != b:
                 yield ('corr', i, '%s: implementation %r, model %r' % (line, a, b))
@@ -461,7 +461,7 @@ def run(ctx):
             lines += lenient_name_history(rng, 'T ' + tok_members(t), [n for n, _ in t], None)
         jobs.append({'family': 'lenient-name', 'lines': lines, 'name': 'lenient-name-%d' % h})
 
-    # ---- members of other enumerations sharing one name (known finding) -----------------------------------
+    # ---- members of other enumerations sharing one name (defect fixed in ce11434) -----------------------------------
     lines = []
     for key, members in enums:
         if key not in mask_keys:
